@@ -67,7 +67,7 @@ def rule_calls_are_requests(rep, rule='NO-recursion'):
             continue
         funcs = routes.functions_top(m.tree)
         for fname, fn in funcs.items():
-            if not fname.startswith(('_try_', '_parse_function_')):
+            if not fname.startswith(('_try_', routes.helper_prefix())):
                 continue
             for node in ast.walk(fn):
                 if isinstance(node, ast.Call):
